@@ -1533,3 +1533,54 @@ def odd_documents(case):
         return f"generate() raised {type(e).__name__}: {str(e)[:160]} on the legal document {case['name']!r} instead of returning diagnostics"
     from .replay import py_syntax_errors
     return None
+
+
+# ---- tags: where an operation is filed, and module names within a tag ---------------------------------------------------------
+
+def tag_filing_cases(tier):
+    tag_lists = [["pets", "admin"], ["admin", "pets"], ["alpha", "shared"], ["beta", "shared"], ["shared"], ["Zed", "alpha"], []]
+    ids = [("get-item", "get_item"), ("getItem", "get_item"), ("a", "b")]
+    out = []
+    for all_tags in (False, True):
+        for t1, t2 in itertools.product(tag_lists, repeat=2):
+            for i1, i2 in ids:
+                out.append({"all_tags": all_tags, "tags": [t1, t2], "ids": [i1, i2]})
+    return out
+
+
+def tag_filing(case):
+    from openapi_python_client import utils
+    ok = {"200": {"description": ""}}
+    ops = {}
+    for k, (tags, opid) in enumerate(zip(case["tags"], case["ids"])):
+        op = {"operationId": opid, "responses": ok}
+        if tags:
+            op["tags"] = tags
+        ops[f"/p{k}"] = {"get": op}
+    doc = _base(ops)
+    try:
+        data = _parse(doc, generate_all_tags=case["all_tags"])
+    except _Timeout:
+        return "parser did not terminate"
+    except BaseException as e:  # noqa
+        return f"parser raised {type(e).__name__}: {str(e)[:100]}"
+    colls = data.endpoint_collections_by_tag
+    text = " ".join((e.header or "") + " " + (e.detail or "") for e in _all_errors(data))
+    for k, (tags, opid) in enumerate(zip(case["tags"], case["ids"])):
+        path = f"/p{k}"
+        want_tags = [str(utils.PythonIdentifier(t, "tag")) for t in (tags or ["default"])]
+        if not case["all_tags"]:
+            want_tags = want_tags[:1]
+        filed = [str(t) for t, c in colls.items() if any(e.path == path for e in c.endpoints)]
+        if not filed:
+            if f"GET {path}" not in text:
+                return f"operation GET {path} is neither generated nor named by a diagnostic"
+            continue
+        if sorted(set(filed)) != sorted(set(want_tags)):
+            return (f"operation GET {path} with tags {tags} (generate_all_tags={case['all_tags']}) is filed under {sorted(filed)}, "
+                    f"the document says {sorted(set(want_tags))}")
+    for t, c in colls.items():
+        mods = [str(utils.PythonIdentifier(e.name, "field_")) for e in c.endpoints]
+        if len(mods) != len(set(mods)):
+            return f"tag {t}: two operations share the module name(s) {sorted(m for m in set(mods) if mods.count(m) > 1)}: one file overwrites the other"
+    return None
